@@ -156,6 +156,8 @@ func class(err error) string {
 		return "refused"
 	case errors.Is(err, syscall.EPIPE):
 		return "pipe"
+	case errors.Is(err, syscall.ENOTCONN):
+		return "notconn"
 	case errors.Is(err, syscall.EADDRINUSE):
 		return "addrinuse"
 	case errors.Is(err, syscall.EMSGSIZE):
@@ -340,6 +342,24 @@ var Scenarios = []Scenario{
 			}
 		}
 		c.Close()
+	}},
+	{"half-closes-after-the-peer-reset", func(e env, l *log) {
+		for _, readFirst := range []bool{true, false} {
+			ln, c, s := pair(e)
+			s.(interface{ SetLinger(int) error }).SetLinger(0)
+			s.Close() // RST
+			e.settle()
+			if readFirst {
+				_, err := c.Read(make([]byte, 16))
+				l.add("read after the peer's reset: %s", class(err))
+			}
+			l.add("CloseRead after the peer's reset (read first: %v): %s", readFirst, class(c.CloseRead()))
+			l.add("CloseWrite after the peer's reset (read first: %v): %s", readFirst, class(c.CloseWrite()))
+			_, err := c.Write([]byte("x"))
+			l.add("write after the peer's reset: %s", class(err))
+			c.Close()
+			ln.Close()
+		}
 	}},
 	{"orderly-close-delivers-everything-queued", func(e env, l *log) {
 		ln, c, s := pair(e)
